@@ -52,7 +52,9 @@ Section Seq.
     sop : Z;           (* startOfPeriod_ *)
     lastRoll : Z;
     lastFlush : Z;
-    nflush : nat       (* number of fflush calls so far (ghost) *)
+    nflush : nat;      (* number of fflush calls so far (ghost) *)
+    dirty : Z          (* ghost: bytes handed to the current FILE* since its last fflush / its fopen - an upper
+                          bound of what may still sit in the 64 KB stdio buffer rather than in the kernel *)
   }.
 
   Definition period (now : Z) : Z := Z.quot now LogFile_kRollPerSeconds * LogFile_kRollPerSeconds.
@@ -66,25 +68,31 @@ Section Seq.
   (* LogFile::rollFile with time(NULL) = now *)
   Definition roll (now : Z) (s : lf) : lf * bool :=
     if roll_test (lastRoll s) now
-    then (mkLF ((now, []) :: files s) 0 (cnt s) (period now) now now (nflush s), true)
+    then (mkLF ((now, []) :: files s) 0 (cnt s) (period now) now now (nflush s) 0, true)
+         (* file_.reset(new AppendFile): ~AppendFile of the old file is fclose, which flushes it *)
     else (s, false).
 
-  Definition lf_new (now : Z) : lf := fst (roll now (mkLF [] 0 0 0 0 0 0%nat)).
+  Definition lf_new (now : Z) : lf := fst (roll now (mkLF [] 0 0 0 0 0 0%nat 0)).
 
   Definition put (acc : list A) (w : nat) (s : lf) : lf :=
     match files s with
     | [] => s                                        (* no file_: excluded by 0 < now at construction *)
     | (nm, d) :: r => mkLF ((nm, d ++ acc) :: r) (wb s + Z.of_nat w) (cnt s) (sop s) (lastRoll s) (lastFlush s) (nflush s)
+                           (dirty s + Z.of_nat (length acc))
     end.
 
   Definition set_cnt (c : Z) (s : lf) : lf :=
-    mkLF (files s) (wb s) c (sop s) (lastRoll s) (lastFlush s) (nflush s).
+    mkLF (files s) (wb s) c (sop s) (lastRoll s) (lastFlush s) (nflush s) (dirty s).
 
   Definition do_flush (s : lf) : lf :=
-    mkLF (files s) (wb s) (cnt s) (sop s) (lastRoll s) (lastFlush s) (S (nflush s)).
+    mkLF (files s) (wb s) (cnt s) (sop s) (lastRoll s) (lastFlush s) (S (nflush s)) 0.
+
+  (* fclose: the stdio buffer goes to the kernel; no fflush is counted, nothing else changes *)
+  Definition do_close (s : lf) : lf :=
+    mkLF (files s) (wb s) (cnt s) (sop s) (lastRoll s) (lastFlush s) (nflush s) 0.
 
   Definition set_lastFlush (t : Z) (s : lf) : lf :=
-    mkLF (files s) (wb s) (cnt s) (sop s) (lastRoll s) t (nflush s).
+    mkLF (files s) (wb s) (cnt s) (sop s) (lastRoll s) t (nflush s) (dirty s).
 
   (* LogFile::append_unlocked; [now] = first time(NULL) of this call, [now2] = second (day roll) *)
   Definition lf_append (c : cfg) (data : list A) (env : list wres) (now now2 : Z) (s : lf) : lf * bool :=
@@ -106,13 +114,15 @@ Section Seq.
   Inductive sop_t :=
   | SAppend (data : list A) (env : list wres) (now now2 : Z)
   | SFlush
-  | SRoll (now : Z).
+  | SRoll (now : Z)
+  | SClose.                      (* ~LogFile: file_ (unique_ptr<AppendFile>) is destroyed, ~AppendFile is fclose *)
 
   Definition lf_step (c : cfg) (s : lf) (o : sop_t) : lf :=
     match o with
     | SAppend d env now now2 => fst (lf_append c d env now now2 s)
     | SFlush => do_flush s
     | SRoll now => fst (roll now s)
+    | SClose => do_close s
     end.
 
   Definition lf_run (c : cfg) (s : lf) (ops : list sop_t) : lf := fold_left (lf_step c) ops s.
@@ -136,13 +146,13 @@ Section Seq.
 End Seq.
 
 Arguments af_loop {A} env data.
-Arguments mkLF {A} files wb cnt sop lastRoll lastFlush nflush.
+Arguments mkLF {A} files wb cnt sop lastRoll lastFlush nflush dirty.
 Arguments files {A} l. Arguments wb {A} l. Arguments cnt {A} l. Arguments sop {A} l.
-Arguments lastRoll {A} l. Arguments lastFlush {A} l. Arguments nflush {A} l.
+Arguments lastRoll {A} l. Arguments lastFlush {A} l. Arguments nflush {A} l. Arguments dirty {A} l.
 Arguments roll {A} now s. Arguments lf_new {A} now. Arguments put {A} acc w s.
-Arguments set_cnt {A} c s. Arguments do_flush {A} s. Arguments set_lastFlush {A} t s.
+Arguments set_cnt {A} c s. Arguments do_flush {A} s. Arguments do_close {A} s. Arguments set_lastFlush {A} t s.
 Arguments lf_append {A} c data env now now2 s.
-Arguments SAppend {A} data env now now2. Arguments SFlush {A}. Arguments SRoll {A} now.
+Arguments SAppend {A} data env now now2. Arguments SFlush {A}. Arguments SRoll {A} now. Arguments SClose {A}.
 Arguments lf_step {A} c s o. Arguments lf_run {A} c s ops. Arguments files_in_order {A} s.
 Arguments handed {A} o. Arguments op_error {A} o. Arguments op_record {A} o.
 
@@ -466,6 +476,19 @@ Section Async.
     | PWait => B + 10
     | PLock => B + 11
     end%nat.
+
+  (* ~AsyncLogging() { if (running_) { stop(); } } : entering the destructor is calling stop() unless stop() has
+     been called before (then nothing happens); the destructor returns when the join has returned *)
+  Definition dtor_entry (s : ast) : ast := match step s LStop with Some s' => s' | None => s end.
+
+  (* an infinite schedule: label number n; a label that is not enabled is skipped (the thread it names has
+     nothing to do).  It is fair to the back-end if it names the back-end again and again *)
+  Definition step_or_stay (s : ast) (l : label) : ast := match step s l with Some s' => s' | None => s end.
+  Definition exec (s : ast) (ls : list label) : ast := fold_left step_or_stay ls s.
+  Definition sched_prefix (f : nat -> label) (n : nat) : list label := map f (seq 0 n).
+  Definition fair_to_backend (f : nat -> label) : Prop := forall n, exists m, (n <= m)%nat /\ f m = LBack.
+  (* records the front-end threads still have to append *)
+  Definition remaining (s : ast) : nat := fold_right (fun p a => (length p + a)%nat) 0%nat (progs s).
 
   Definition count_back (ls : list label) : nat :=
     length (filter (fun l => match l with LBack => true | _ => false end) ls).
